@@ -24,7 +24,7 @@ ASSUMPTIONS = ["pre-emption is possible before every bytecode instruction of ak.
 RULE = ("each run = one seeded world (rarely preceded by ~10000 sequential warm-up requests so that the 4-digit "
         "part of the ids wraps around; 1-2 underlying connections, 2-6 wrappers incl. auth/prefix/"
         "method-caller layers, 2-4 threads x 1-4 requests, post-send transport faults) executed under one "
-        "seeded schedule (policy drawn per run: uniform p, targeted, quantum, PCT) with a pre-emption point "
+        "seeded schedule (policy drawn per run: uniform p, targeted, quantum, PCT, park) with a pre-emption point "
         "before every bytecode instruction of ak.conn_http, ak.mcaller_http, ak.mcaller. A run is "
         "non-trivial iff at least one pre-emption happened while the request-id lock was held or inside "
         "_generate_request_id, or a thread actually blocked on the lock; distinct = distinct digest of "
@@ -116,7 +116,11 @@ def gen_policy(rng, est_steps):
 
 
 def _gen_policy(rng, est_steps):
-    kind = rng.choice(["uniform", "uniform", "targeted", "targeted", "quantum", "pct"])
+    kind = rng.choice(["uniform", "uniform", "targeted", "targeted", "quantum", "pct", "park"])
+    if kind == "park":
+        return {"kind": kind, "targets": TARGETS[: rng.randint(1, len(TARGETS))],
+                "p_in": rng.choice([0.02, 0.1, 0.3]), "p_out": rng.choice([0.0, 0.002]),
+                "len": rng.choice([300, 1500, 6000])}
     if kind == "uniform":
         return {"kind": kind, "p": rng.choice([0.01, 0.05, 0.2, 0.5])}
     if kind == "targeted":
@@ -198,14 +202,20 @@ def generate(rng, tier):
             ops.append(op)
             k += 1
     rng.shuffle(ops)
-    if rng.random() < (0.004 if big else 0.0015):
+    if rng.random() < (0.008 if big else 0.006):
         # rarely: a long sequential warm-up through one wrapper, so that the concurrent part runs across the
         # point where the 4-digit part of the id wraps around (10000 requests)
         ops.insert(0, {"op": "burst", "k": k, "t": 0, "w": rng.randrange(nw), "n": 10000 - rng.randint(0, 3),
                        "verb": "get", "path": "/warm", "own_id": None, "net": {"lat": 0, "body": ""}})
     est = len(ops) * 420
+    policy = gen_policy(rng, est)
+    if ops and ops[0].get("op") == "burst" and rng.random() < 0.7:
+        # the one moment such a run is about - the numbers pass a multiple of 10000 - comes once: most of these runs
+        # use the schedule family that leaves a thread descheduled in the middle of the id generator
+        policy.update({"kind": "park", "targets": TARGETS[:1], "p_in": rng.choice([0.01, 0.02, 0.05]), "p_out": 0.0,
+                       "len": rng.choice([1500, 6000])})
     return {"world": world, "nthreads": nthreads, "ops": ops,
-            "policy": gen_policy(rng, est), "debug_log": rng.random() < 0.2}
+            "policy": policy, "debug_log": rng.random() < 0.2}
 
 
 # --------------------------------------------------------------------------
